@@ -866,10 +866,23 @@ fn c06(cx: &mut Ctx, e: &Entry, f: AtomFn, inp: Option<&Value>) {
         c06_case(cx, e, f, &get_r(v, "x"));
         return;
     }
-    let u = cx.uni(&e.t.shape, cx.args.budget(1000, 10_000, 8));
-    for r in e.vals_t(&u) {
-        c06_case(cx, e, f, &r);
+    // every value list the other properties use, plus a large one
+    let mut seen: std::collections::BTreeSet<R> = std::collections::BTreeSet::new();
+    let sizes = [cx.args.budget(36, 80, 5), cx.args.budget(200, 400, 6), cx.args.budget(4000, 20_000, 8)];
+    for n in sizes {
+        let u = cx.uni(&e.t.shape, n);
+        for r in e.vals_t(&u) {
+            if seen.insert(r.clone()) {
+                c06_case(cx, e, f, &r);
+                if has_withtop_some_top(&r) {
+                    cx.rep.count("c06_values_with_withtop_some_inner_top");
+                }
+            }
+        }
     }
     cx.rep.count("c06_families");
+    if e.t.name.contains("<()>") {
+        cx.rep.count("c06_one_point_inner_families");
+    }
     cx.rep.count(&format!("c06_family:{}", e.t.name));
 }
